@@ -36,6 +36,7 @@ def handle (st : St) (line : String) : St × String :=
       let (s', r) := Emu.Gcs.step st.gcs op
       ({ st with gcs := s' }, showGcsResp r)
     | none => (st, "bad-op")
+  | "judge" :: rest => (st, handleJudge rest)
   | "scanw" :: rest =>
     let (bt', r) := handleScanW st.bt rest
     ({ st with bt := bt' }, r)
